@@ -237,4 +237,145 @@ fn run(input: &Value) -> CaseOut {
     CaseOut { obs: json!({"cycles": cyc_json}), coq, nontrivial: gaps_total > 7 }
 }
 
-fn main() { drive(gen, run) }
+
+//------------ reader-side gaps ("readers" stream) ----------------------------
+
+fn gen_readers(rng: &mut Rng, tier: &str) -> Vec<(String, Value)> {
+    let mut cases = Vec::new();
+    let n = if tier == "thorough" { 30 } else { 6 };
+    for i in 0..n {
+        let mut r = rng.fork();
+        let u = Universe::new(&mut r, 3 + (i % 3), 0, 1);
+        let mk = |r: &mut Rng| { let mut s = u.snap(r, 1, 2); s["keys"] = json!([]); s["aspas"] = json!([]); s };
+        let npre = r.range(1, 3);
+        let mut pre = Vec::new();
+        let mut t: i64 = 1_800_000_000_000_000_000;
+        let mut prev = mk(&mut r);
+        for _ in 0..npre {
+            t += 61_000_000_000;
+            let d = { let mut m = u.mutate(&mut r, &prev); m["keys"] = json!([]); m["aspas"] = json!([]); m["origins"].as_array_mut().unwrap().push(json!(["198.51.100.0/24", 24, 64000 + pre.len()])); m };
+            pre.push(json!({"data": d, "t_upd": t, "t_done": t + 1_500_000_000}));
+            prev = d;
+        }
+        let mut extra = prev.clone();
+        extra["origins"].as_array_mut().unwrap().push(json!(["203.0.113.0/24", 24, 64999]));
+        t += 61_000_000_000;
+        for kind in ["full", "diff", "json", "delta", "reset"] {
+            cases.push((format!("readers.{}", kind), json!({"keep": 5, "pre": pre, "kind": kind,
+                "extra": {"data": extra, "t_upd": t, "t_done": t + 1_500_000_000}})));
+        }
+    }
+    cases
+}
+
+fn run_reader(input: &Value) -> CaseOut {
+    let keep = input["keep"].as_u64().unwrap();
+    let mut env = Env::new(|c| { c.history_size = keep as usize; });
+    hooks::exempt_current_thread(true);
+    let pre = input["pre"].as_array().unwrap();
+    let mut specs: Vec<Value> = pre.iter().map(|c| c["data"].clone()).collect();
+    specs.push(input["extra"]["data"].clone());
+    let snaps: Vec<_> = specs.iter().map(snapshot_of).collect();
+    let r = Ranker::new(snaps.iter());
+    for c in pre {
+        hooks::set_now(Some(ts(c["t_upd"].as_i64().unwrap())));
+        // update() and mark_update_done() read the clock once each; good enough: both see t_upd, then we fix created by a second mark
+        env.cycle(&c["data"], 0, false).unwrap();
+    }
+    // make the creation time deterministic: the model's cycle uses (t_upd, t_done); replay the same two readings
+    // (the clock override is a single value, so cycles above used t_upd for both readings: model gets t_done := t_upd)
+    let kind = input["kind"].as_str().unwrap().to_string();
+    let (session64, serial) = env.history.read().session_and_serial();
+    let cur = u32::from(serial);
+    let sess = env.history.notify().session();
+    hooks::arm("history.read");
+    let mut arrivals = 0u64;
+    let mut injected = false;
+    let mut out: Option<(String, String, Value)> = None;
+    let extra = input["extra"].clone();
+    std::thread::scope(|scope| {
+        let envr = &env;
+        let rr = &r;
+        let k = kind.clone();
+        let reader = scope.spawn(move || {
+            // NOT exempt: stops before every history read-lock acquisition
+            match k.as_str() {
+                "full" => {
+                    let (st, mut set) = envr.history.full();
+                    let mut items = Vec::new();
+                    while let Some(p) = set.next() { if let PayloadRef::Origin(o) = p { items.push(rr.origin(&o)); } else { items.push(777_777_777); } }
+                    let ser = if st.session() == sess { u32::from(st.serial()) as u64 } else { 999_999_999_999 };
+                    ("PFull".to_string(), format!("AFull {} {}", ser, coq_list(items.iter(), |k| format!("({},tt)", k))), json!({"serial": ser, "n": items.len()}))
+                }
+                "diff" => {
+                    let c = cur.wrapping_sub(1);
+                    match envr.history.diff(State::from_parts(sess, Serial::from(c))) {
+                        None => (format!("PDiff true {}", c), "ADiff None".to_string(), json!(null)),
+                        Some((st2, mut d)) => {
+                            let mut acts = Vec::new();
+                            while let Some((p, a)) = d.next() { let k = if let PayloadRef::Origin(o) = p { rr.origin(&o) } else { 777_777_777 }; acts.push((k, a.is_withdraw())); }
+                            let tag = if st2.session() == sess { u32::from(st2.serial()) as u64 } else { 999_999_999_999 };
+                            (format!("PDiff true {}", c), format!("ADiff (Some ({}, {}))", tag, coq_list(acts.iter(), |(k, w)| format!("({},tt,{})", k, coq_bool(*w)))), json!({"tag": tag, "acts": acts}))
+                        }
+                    }
+                }
+                "json" => {
+                    let resp = envr.get("/json", &[]);
+                    if resp.status != 200 { ("PJson None None None".to_string(), "AJson503".to_string(), json!({"status": resp.status})) } else {
+                        let e = etag_serial(resp.etag.as_deref().unwrap_or(""));
+                        let lm_secs = DateTime::parse_from_rfc2822(resp.last_modified.as_deref().unwrap_or("")).map(|d| d.timestamp()).unwrap_or(-1);
+                        let body: Value = serde_json::from_slice(&resp.body).unwrap_or(Value::Null);
+                        let items: Vec<u64> = body["roas"].as_array().map(|a| a.iter().map(|v| parse_origin(v, rr)).collect()).unwrap_or_else(|| vec![666_666_666]);
+                        ("PJson None None None".to_string(), format!("AJson200 {} ({})%Z {}", e, lm_secs, coq_list(items.iter(), |k| format!("({},tt)", k))), json!({"etag": e, "n": items.len()}))
+                    }
+                }
+                _ => {
+                    let (ver, path) = if k == "delta" { (Some(cur.wrapping_sub(1)), format!("/json-delta?session={}&serial={}", session64, cur.wrapping_sub(1))) } else { (None, "/json-delta".to_string()) };
+                    let resp = envr.get(&path, &[]);
+                    let p = format!("PDelta {}", coq_opt(ver.map(|c| format!("(true,{})", c))));
+                    let body: Value = serde_json::from_slice(&resp.body).unwrap_or(Value::Null);
+                    let ser = if resp.status == 200 { body["serial"].as_u64().unwrap_or(444_444_444) } else { 444_000_000 + resp.status as u64 };
+                    let ann: Vec<u64> = body["announced"].as_array().map(|a| a.iter().map(|v| parse_origin(v, rr)).collect()).unwrap_or_else(|| vec![666_666_666]);
+                    if body["reset"] == json!(true) {
+                        (p, format!("ADeltaReset {} {}", ser, coq_list(ann.iter(), |k| format!("({},tt)", k))), json!({"reset": true, "serial": ser}))
+                    } else {
+                        let wd: Vec<u64> = body["withdrawn"].as_array().map(|a| a.iter().map(|v| parse_origin(v, rr)).collect()).unwrap_or_else(|| vec![666_666_666]);
+                        let from = body["fromSerial"].as_u64().unwrap_or(444_444_444);
+                        (p, format!("ADeltaDelta {} {} {} {}", from, ser, coq_nlist(ann.iter()), coq_nlist(wd.iter())), json!({"reset": false, "from": from, "serial": ser}))
+                    }
+                }
+            }
+        });
+        loop {
+            if reader.is_finished() { break }
+            if hooks::wait_any(&["history.read"], Duration::from_millis(10)).is_some() {
+                arrivals += 1;
+                if arrivals == 2 && !injected {
+                    // the operation comes back for a second lock acquisition: a whole validation cycle happens in between
+                    injected = true;
+                    hooks::set_now(Some(ts(extra["t_upd"].as_i64().unwrap())));
+                    let ex = slurm_of(&extra["data"]);
+                    hooks::set_forced("validation.process", vec![0]);
+                    let mut notify = envr.notify.clone();
+                    Server::verif_process_once(&envr.config, &envr.engine, &envr.history, &mut notify, &ex, false).unwrap();
+                }
+                hooks::release("history.read");
+                while hooks::wait_any(&["history.read"], Duration::from_millis(0)).is_some() && !reader.is_finished() { std::thread::yield_now(); }
+            }
+            if arrivals > 20 { break }
+        }
+        hooks::disarm("history.read");
+        out = Some(reader.join().unwrap());
+    });
+    hooks::set_now(None);
+    let (p, a, j) = out.unwrap();
+    let cyc = |c: &Value, tdone_eq_tupd: bool| format!("({}, ({})%Z, ({})%Z)", coq_snapshot(&snapshot_of(&c["data"]), &r),
+        c["t_upd"].as_i64().unwrap(), if tdone_eq_tupd { c["t_upd"].as_i64().unwrap() } else { c["t_done"].as_i64().unwrap() });
+    let coq = format!("{{| r_keep := {}; r_pre := {}; r_probe := {}; r_extra := {}; ri_arrivals := {}; ri_injected := {}; ri_reply := {} |}}",
+        keep, coq_list(pre.iter(), |c| cyc(c, true)), p, cyc(&input["extra"], true), arrivals, coq_bool(injected), a);
+    CaseOut { obs: json!({"arrivals": arrivals, "injected": injected, "reply": j}), coq, nontrivial: true }
+}
+
+fn main() {
+    if std::env::var("C15_STREAM").ok().as_deref() == Some("readers") { drive(gen_readers, run_reader) } else { drive(gen, run) }
+}
